@@ -4,6 +4,7 @@ C06: specification of the helpers of `IntRange.And` / `IntRange.Or`
 each returns (no panic) a sound interval which is tight when all bounds are finite.
 -/
 import WuffsVerif.Proof.IntervalBasic
+import WuffsVerif.Proof.IntervalTables
 import WuffsVerif.Proof.IntervalBits
 
 namespace WuffsVerif.Interval
@@ -513,7 +514,7 @@ theorem andOneNeg_spec {N O : IR} {nh ol : Int} (en : N.empty = false) (eo : O.e
     simp only [hnh, hol]
     cases hoh : O.hi with
     | none =>
-      simp only [bitMask]
+      simp only [bitMask_eq]
       generalize hk : max (bitLen nl) (bitLen ol) = k
       have hnlr : -(2 : Int) ^ k ≤ nl := by
         have := (bitLen_range nl).1
@@ -560,7 +561,7 @@ theorem andOneNeg_spec {N O : IR} {nh ol : Int} (en : N.empty = false) (eo : O.e
         omega
     | some oh =>
       have hole := lo_le_hi eo hol hoh
-      simp only [bitMask]
+      simp only [bitMask_eq]
       generalize hk : max (bitLen nl) (bitLen oh) = k
       have hnlr : -(2 : Int) ^ k ≤ nl := by
         have := (bitLen_range nl).1
